@@ -12,7 +12,9 @@ from harness import schedlib as S
 
 def outcome(spec):
     try:
-        if "sources" in spec:
+        if "units" in spec:
+            sess = S.prepare_units(spec)
+        elif "sources" in spec:
             sess = S.prepare_link(spec)
         else:
             sess = S.prepare(spec, S.build_classes(spec))
@@ -28,7 +30,7 @@ def main():
     if req.get("run"):
         # run one request in SYNC mode (the parent kills this process if it spins)
         spec = req["specs"][0]
-        sess = S.prepare_link(spec) if "sources" in spec else S.prepare(spec, S.build_classes(spec))
+        sess = S.prepare_units(spec) if "units" in spec else (S.prepare_link(spec) if "sources" in spec else S.prepare(spec, S.build_classes(spec)))
         try:
             sess.run()
             print(json.dumps("returned"), flush=True)
